@@ -791,7 +791,9 @@ def eval_splitnote(d, ev):
     if snd != snd0:
         ev.oracle.append("split_note/note-array: changed from %s to %s" % (snd0, snd))
     check_chains(part, "split_note", ev.oracle)
-    check_symbolic(part, "split_note", ev.oracle)
+    if not d.get("qd"):
+        # find_tie_split works with one divisions value: a note across a quarter-duration change is outside its domain
+        check_symbolic(part, "split_note", ev.oracle)
     return len(splits) >= 1
 
 
